@@ -24,7 +24,7 @@ RULE = ('sequential: histories of push/pull/peek on both sides over prefixes {No
         'checked; distinct_nontrivial = distinct (operation, prefix, side, outcome class) cells + distinct schedules '
         'with a preemption inside an operation')
 DISTINCT = ('cells', 'schedules')
-REQUIRED = ('sequential_calls', 'pulls_of_expired_heads', 'file_backed_items', 'ordinary_keys_interleaved',
+REQUIRED = ('jobs_given_back_by_a_rolled_back_block', 'sequential_calls', 'pulls_of_expired_heads', 'file_backed_items', 'ordinary_keys_interleaved',
             'schedules_checked', 'free_runs', 'items_delivered_concurrently', 'prefix_extension_cases',
             'timed_schedules_checked', 'timed_items_delivered', 'timed_items_expired_undelivered', 'queue_blocks_aborted',
             'queue_blocks_committed', 'queue_timeouts_under_commit_contention')
@@ -287,6 +287,10 @@ def q_step(state, o):
     raise ValueError(op)
 
 
+class GiveBack(Exception):
+    pass
+
+
 def schedule(dc, sc, res, rng, label):
     d = sc.new()
     clock = probe.set_clock(probe.VClock())
@@ -315,6 +319,19 @@ def schedule(dc, sc, res, rng, label):
             for i in range(rng.randrange(1, 4)):
                 side = 'front' if rng.random() < 0.8 else 'back'
                 op = 'pull' if rng.random() < 0.8 else 'peek'
+                if rng.random() < 0.2:
+                    # a consumer takes the job inside a transaction, fails to process it and gives it back: the block
+                    # is left by an exception, so to the queue nothing has happened
+                    def give_back():
+                        try:
+                            with caches[ci].transact(retry=True):
+                                caches[ci].pull(prefix='q', side=side)
+                                raise GiveBack()
+                        except GiveBack:
+                            return None
+                    rec.call(ci, 'noop', (), give_back, {})
+                    res.count('jobs_given_back_by_a_rolled_back_block')
+                    continue
                 rec.call(ci, op, (), lambda: getattr(caches[ci], op)(prefix='q', side=side, retry=True), {'side': side})
         return run
 
@@ -334,6 +351,7 @@ def schedule(dc, sc, res, rng, label):
             if o['kind'] == 'raise':
                 res.violation('%s raised %s (%s)' % (o['op'], o['result'], o.get('exc')), extra)
                 return
+        ops = [o for o in ops if o['op'] != 'noop']
         # drain through a fresh handle
         fresh = dc.Cache(d)
         t = sch.tick + 5
